@@ -37,7 +37,7 @@ structure PV where
   errs : List Err := []
 deriving Repr, Inhabited
 
-/-- `for a in v.attrs { … }` : the rename processing; `none` = `abort!` -/
+/-- `for a in v.attrs { … }` : the rename processing; `none` = `abort!`.  Returns the name and the errors emitted. -/
 def processAttrs : Name → List Err → List VAttr → Option (Name × List Err)
   | name, errs, [] => some (name, errs)
   | name, errs, .foreign :: rest => processAttrs name errs rest
@@ -45,42 +45,56 @@ def processAttrs : Name → List Err → List VAttr → Option (Name × List Err
   | name, errs, .badEmit :: rest => processAttrs name (errs ++ [.unsupportedAttributeType]) rest
   | _, _, .badAbort :: _ => none
 
+/-- `if !matches!(v.fields, Fields::Unit) { emit_error!(…) }` -/
+def fieldErrs (v : Variant) : List Err := if v.fields ≠ .unit then [.onlyUnitField] else []
+
+/-- the `sorted.name` check (`values.rs:54-61`): errors, and the new `last_name` -/
+def nameSortErrs (sorted : Sorted) (lastName : Option Name) (name : Name) : List Err :=
+  if sorted.name then
+    (match lastName with
+      | some ln => if ¬ (ln < name) then [.notNameSorted] else []
+      | none => [])
+  else []
+
+def nextLastName (sorted : Sorted) (lastName : Option Name) (name : Name) : Option Name :=
+  if sorted.name then some name else lastName
+
+/-- how the code reads an explicit discriminant (`values.rs:62-95`): peel one unary minus without
+attributes, require an integer literal, parse the digits as i128, negate, range-check against i64 -/
+def readDisc (d : DiscExpr) : Except Err Int :=
+  let (negate, num) := match d with
+    | .neg true e => (true, e)
+    | e => (false, e)
+  match num with
+  | .intLit n =>
+    let i : Int := if negate then -(n : Int) else n
+    if i64Min ≤ i ∧ i ≤ i64Max then .ok i else .error .noI64
+  | _ => .error .notInteger
+
+/-- `values.insert(i, (ident, name))` with the duplicate check, and `last = i` -/
+def insertValue (st : PV) (errs : List Err) (lastName : Option Name) (i : Int) (ident name : Name) : PV :=
+  let (vals, dup) := assocInsert i (ident, name) st.values
+  { values := vals, last := i, lastName := lastName, errs := if dup then errs ++ [.duplicateValue] else errs }
+
+/-- the `sorted.value` check of an explicit discriminant -/
+def valueSortErrs (sorted : Sorted) (st : PV) (i : Int) : List Err :=
+  if sorted.value ∧ ¬ st.values.isEmpty ∧ i < st.last then [.notValueSorted] else []
+
 /-- one iteration of the loop body (`values.rs:20-104`); `none` = `abort!` -/
 def pvStep (sorted : Sorted) (st : PV) (v : Variant) : Option PV :=
-  let errs := if v.fields ≠ .unit then st.errs ++ [.onlyUnitField] else st.errs
-  match processAttrs v.ident errs v.attrs with
+  match processAttrs v.ident [] v.attrs with
   | none => none
-  | some (name, errs) =>
-    let (errs, lastName) :=
-      if sorted.name then
-        ((match st.lastName with
-          | some ln => if ¬ (ln < name) then errs ++ [.notNameSorted] else errs
-          | none => errs), some name)
-      else (errs, st.lastName)
+  | some (name, aerrs) =>
+    let errs := st.errs ++ fieldErrs v ++ aerrs ++ nameSortErrs sorted st.lastName name
+    let lastName := nextLastName sorted st.lastName name
     match v.disc with
     | some d =>
-      -- peel one unary minus without attributes
-      let (negate, num) := match d with
-        | .neg true e => (true, e)
-        | e => (false, e)
-      match num with
-      | .intLit n =>
-        -- `base10_parse::<i128>()`, negate, `i64::try_from`
-        let i : Int := if negate then -(n : Int) else n
-        if i64Min ≤ i ∧ i ≤ i64Max then
-          let errs := if sorted.value ∧ ¬ st.values.isEmpty ∧ i < st.last then errs ++ [.notValueSorted] else errs
-          let (vals, dup) := assocInsert i (v.ident, name) st.values
-          let errs := if dup then errs ++ [.duplicateValue] else errs
-          some { values := vals, last := i, lastName := lastName, errs := errs }
-        else
-          some { st with lastName := lastName, errs := errs ++ [.noI64] }
-      | _ => some { st with lastName := lastName, errs := errs ++ [.notInteger] }
+      match readDisc d with
+      | .ok i => some (insertValue st (errs ++ valueSortErrs sorted st i) lastName i v.ident name)
+      | .error e => some { st with lastName := lastName, errs := errs ++ [e] }
     | none =>
-      let errs := if st.last = i64Max then errs ++ [.i64Overflow] else errs
-      let last := wrapI64 (st.last + 1)
-      let (vals, dup) := assocInsert last (v.ident, name) st.values
-      let errs := if dup then errs ++ [.duplicateValue] else errs
-      some { values := vals, last := last, lastName := lastName, errs := errs }
+      let errs := errs ++ (if st.last = i64Max then [.i64Overflow] else [])
+      some (insertValue st errs lastName (wrapI64 (st.last + 1)) v.ident name)
 
 def pvLoop (sorted : Sorted) : PV → List Variant → Option PV
   | st, [] => some st
